@@ -110,7 +110,17 @@ fn produce(r: &mut Rng, out: &mut String, t: &str, tg: &[(u64, u64)], which: u64
                 writeln!(out, "tinsert_range {} in:{} ex:{}", t, s, s + l).unwrap();
             }
             if r.chance(1, 2) {
-                writeln!(out, "tremove_range {} in:{} in:{}", t, jk, jk + 100000).unwrap();
+                // the junk partition holds {5, 6, 70000}: remove it with bounds beyond it, or with bounds that sit EXACTLY on its
+                // smallest / largest value or on the partition's edges
+                let lo = *r.pick(&[jk, jk, jk + 5, jk + 4]);
+                let hi = *r.pick(&[jk + 100000, jk + 70000, jk + 70000, jk + 70001, jk | 0xFFFF_FFFF]);
+                if lo == jk + 4 {
+                    writeln!(out, "tremove_range {} ex:{} in:{}", t, lo, hi).unwrap();
+                } else if hi == jk + 70001 {
+                    writeln!(out, "tremove_range {} in:{} ex:{}", t, lo, hi).unwrap();
+                } else {
+                    writeln!(out, "tremove_range {} in:{} in:{}", t, lo, hi).unwrap();
+                }
             } else {
                 writeln!(out, "tremove {} {}", t, jk + 5).unwrap();
                 writeln!(out, "tremove {} {}", t, jk + 70000).unwrap();
